@@ -31,6 +31,8 @@ type simDev struct {
 	nextCreated int64
 	registered  bool
 	zeroKey     bool
+	formerAddr  *uint32 // the address before the operator re-addressed the device
+	formerKey   []byte  // the AppKey before the operator replaced it
 }
 
 type histProfile struct {
@@ -45,6 +47,7 @@ type histProfile struct {
 	maxSubmit                                  int  // largest queued payload (0: up to 230, beyond some data rates' limit)
 	noRestart                                  bool // one server for the whole history
 	sameTs                                     bool // receptions with identical receive time (the inbox key): the later one is refused by the store
+	wUpdate                                    int  // 1 in n events is preceded by an operator's change of the device (new address, or new AppKey) through the storage layer
 }
 
 var datrs = []string{"SF12BW125", "SF11BW125", "SF10BW125", "SF9BW125", "SF8BW125", "SF7BW125", "SF7BW250", "FSKBW500"}
@@ -276,6 +279,37 @@ func (h *histRunner) restartServer() {
 	h.tags["restart"]++
 }
 
+// the operator changes the device while the server runs: a new address (the device is re-personalised) or a new AppKey
+// (the device is re-provisioned); the row is read, changed and written back, as the service does
+func (h *histRunner) updateDevice(d *simDev) {
+	if !d.registered {
+		return
+	}
+	dev, err := h.w.store.GetDeviceByEUI(d.eui)
+	if err != nil {
+		return
+	}
+	if d.joined && !d.zeroKey && h.rng.Intn(2) == 0 {
+		na := h.rng.Uint32() & 0x01ffffff
+		if na == d.addr || na == 0 {
+			na = d.addr ^ 0x55
+		}
+		old := d.addr
+		d.formerAddr = &old
+		d.addr = na
+		dev.DevAddr = protocol.DevAddrFromUint32(na)
+		h.tags["update.address"]++
+	} else {
+		d.formerKey = d.appkey
+		d.appkey = genKey(h.rng)
+		copy(dev.AppKey.Key[:], d.appkey)
+		h.tags["update.appkey"]++
+	}
+	err = h.w.store.UpdateDevice(dev)
+	h.events = append(h.events, fmt.Sprintf("U,%x,%x,%s", uint64(d.eui.ToInt64()), d.addr, hx(d.appkey)))
+	h.obs = append(h.obs, fmt.Sprintf("U%d %s", b01(err == nil), h.dumpAll()))
+}
+
 // many joins of one device, then the early nonces again (oldest first), with a restart somewhere
 func (h *histRunner) joinMarathon(d *simDev) {
 	n := 17 + h.rng.Intn(12)
@@ -444,6 +478,21 @@ func runHistory(rng *rand.Rand, prof histProfile, w *Writer, suite string) {
 		}
 		di := rng.Intn(len(h.devs))
 		d := h.devs[di]
+		if prof.wUpdate > 0 && rng.Intn(prof.wUpdate) == 0 {
+			h.updateDevice(d)
+		}
+		if d.formerAddr != nil && rng.Intn(4) == 0 {
+			// a frame to the address the device had before, authentic under its keys: no device has that address now
+			f := refUplink(d.nwk, d.app, []byte{2, 4}[rng.Intn(2)], *d.formerAddr, d.fcnt, 0, nil, 1+rng.Intn(200), randBytes(rng, rng.Intn(12)))
+			h.rx(f, "uplink.former-address")
+			continue
+		}
+		if d.formerKey != nil && rng.Intn(4) == 0 {
+			// a join-request under the AppKey the device had before
+			nonce := uint16(rng.Intn(65536))
+			h.rx(refJoinRequest(d.formerKey, d.appeui, d.eui, nonce), "join.former-key")
+			continue
+		}
 		r := rng.Intn(total)
 		switch {
 		case r >= total-prof.wCrash:
@@ -635,11 +684,11 @@ func runHistory(rng *rand.Rand, prof histProfile, w *Writer, suite string) {
 }
 
 var profiles = map[string]histProfile{
-	"C01": {badDatr: true, name: "C01", wUplink: 4, wCorrupt: 8, wJoin: 1, wSubmit: 1, wReplay: 1, maxDevs: 4, minEv: 8, maxEv: 25, shareAddr: 3},
+	"C01": {wUpdate: 25, badDatr: true, name: "C01", wUplink: 4, wCorrupt: 8, wJoin: 1, wSubmit: 1, wReplay: 1, maxDevs: 4, minEv: 8, maxEv: 25, shareAddr: 3},
 	"C02": {badDatr: true, name: "C02", wUplink: 10, wCorrupt: 0, wJoin: 1, wSubmit: 1, wReplay: 0, maxDevs: 3, minEv: 8, maxEv: 20, shareAddr: 8},
 	"C03": {badDatr: true, name: "C03", wUplink: 8, wCorrupt: 1, wJoin: 1, wSubmit: 2, wReplay: 5, maxDevs: 2, minEv: 10, maxEv: 30, shareAddr: 0},
-	"C04": {badDatr: true, name: "C04", wUplink: 3, wCorrupt: 0, wJoin: 8, wSubmit: 0, wReplay: 0, maxDevs: 3, minEv: 6, maxEv: 16, shareAddr: 0},
-	"C05": {badDatr: true, name: "C05", wUplink: 3, wCorrupt: 0, wJoin: 8, wSubmit: 1, wReplay: 1, maxDevs: 3, minEv: 8, maxEv: 20, shareAddr: 0, nonceOff: 3},
+	"C04": {wUpdate: 12, badDatr: true, name: "C04", wUplink: 3, wCorrupt: 0, wJoin: 8, wSubmit: 0, wReplay: 0, maxDevs: 3, minEv: 6, maxEv: 16, shareAddr: 0},
+	"C05": {wUpdate: 30, badDatr: true, name: "C05", wUplink: 3, wCorrupt: 0, wJoin: 8, wSubmit: 1, wReplay: 1, maxDevs: 3, minEv: 8, maxEv: 20, shareAddr: 0, nonceOff: 3},
 	"C06": {maxSubmit: 59, name: "C06", wUplink: 8, wCorrupt: 2, wJoin: 1, wSubmit: 6, wReplay: 1, maxDevs: 4, minEv: 10, maxEv: 30, shareAddr: 6},
 	"C07": {badDatr: true, name: "C07", wUplink: 8, wCorrupt: 1, wJoin: 2, wSubmit: 3, wReplay: 1, maxDevs: 2, minEv: 10, maxEv: 30, confirmedOnly: true},
 	"C08": {maxSubmit: 59, name: "C08", wUplink: 9, wCorrupt: 1, wJoin: 0, wSubmit: 5, wReplay: 1, maxDevs: 3, minEv: 12, maxEv: 30},
